@@ -19,10 +19,10 @@ from .. import core, tlc
 from .. import migrationutil as mu
 
 INVARIANTS = ["TypeOK", "JobsNeverLost", "Refuse", "MigratePreserves", "CollisionLeavesJobs", "MigrateRefuses",
-              "UpToDateNoop", "SecondNoop", "OpensAfterwards", "LockHeld", "ChainIsFunction"]
+              "UpToDateNoop", "SecondNoop", "OpensAfterwards", "LockHeld", "ChainIsFunction", "CollisionRecoverable"]
 PROPS = ["RefuseFrame", "VersionMonotone"]
 ACTIONS = ["OpenOp", "Lock", "Collect", "Null01", "Bump1", "MoveWs", "NameToDoc", "RewriteCfg", "MoveCfg", "MoveFiles", "Bump2",
-           "Unlock", "Again", "OpenAfter"]
+           "Unlock", "Again", "ResolveCollision", "OpenAfter"]
 PRESERVE_FIELDS = ("where", "ver", "dirs", "njobs", "pdocUser", "pdocName", "cache", "hist")
 _G = {}
 
@@ -88,7 +88,13 @@ def _check_case(case, root, out, real=None, mutate_expected=None):
             else:
                 report("violation", "gate:%s:supported-version-refused:%s" % (op, res),
                        "%s on an up-to-date project gives %s (%s)" % (op, res, detail))
-        if after != before:
+        if case["post"] != l0:
+            # a successful open with a specified effect (CAL_OpenCreatesWorkspace): exactly that effect, nothing else
+            seen, extra = mu.project_disk(root, jobs, l0, real)
+            added = sorted(k for k in after if k not in before)
+            if seen != case["post"] or extra or added != [real["workspace"] + "/"] or any(before[k] != after.get(k, 0) for k in before):
+                report("drift", "gate:%s:open-effect" % op, "%s on an up-to-date project without workspace: layout %r, added %r; specification %r" % (op, seen, added, case["post"]))
+        elif after != before:
             report("violation", "gate:%s:%s:modified-%s" % (op, _ver_class(l0), _changed_kinds(before, after)),
                    "%s on a project declaring schema version %s in %s changed the directory: %s"
                    % (op, l0["ver"], l0["where"], sorted(k for k in set(before) | set(after) if before.get(k, 0) != after.get(k, 0))[:6]))
@@ -117,19 +123,41 @@ def _check_case(case, root, out, real=None, mutate_expected=None):
                    "apply_migrations on an up-to-date project is not a no-op: it rewrote (with identical bytes) %s" % touched[:6])
     elif seen != exp or extra:
         bad = _diff(seen, exp)
-        stated = [f for f in bad if f in PRESERVE_FIELDS] if legacy_ok else [f for f in bad if f in ("dirs", "njobs", "pdocUser")]
-        for f in stated:
-            report("violation", "migrate:%s=%s%s" % (f, _short(seen, f), ":" + _ws_class(l0) if f in ("dirs", "njobs") else ""),
-                   "after apply_migrations %s is %r, the specification requires %r; layout %r" % (f, seen[f], exp[f], l0))
+        if colliding:
+            # the refused migration must leave the WHOLE layout as it was (CollisionLeavesJobs), bar the null step's version bump
+            stated = [f for f in bad if f != "lock"]
+            if stated:
+                report("violation", "migrate:collision:left-half-migrated",
+                       "apply_migrations refused (colliding 'workspace') but did not leave the project as it was: %s; layout %r"
+                       % ({f: (seen[f], "expected", exp[f]) for f in stated}, l0))
+                stated = ["*"]
+        else:
+            stated = [f for f in bad if f in PRESERVE_FIELDS] if legacy_ok else [f for f in bad if f in ("dirs", "njobs", "pdocUser")]
+            for f in stated:
+                report("violation", "migrate:%s=%s%s" % (f, _short(seen, f), ":" + _ws_class(l0) if f in ("dirs", "njobs") else ""),
+                       "after apply_migrations %s is %r, the specification requires %r; layout %r" % (f, seen[f], exp[f], l0))
         if not stated:
             report("drift", "migrate:%s:%s" % (shape, ",".join(bad) or "extra"), "after apply_migrations: differing fields %r (got %r), unexpected %r; layout %r"
                    % (bad, {f: seen[f] for f in bad}, extra, l0))
     # ---- a second migration is a no-op ----------------------------------------------------------------
+    if case["resolved"]:
+        import shutil
+        shutil.rmtree(os.path.join(root, real["workspace"]), ignore_errors=True)      # the user resolves the collision
     mid = core.snapshot(root)
     res2, detail2 = mu.run_op("migrate", root, sub)
     n += 1
     after2 = core.snapshot(root)
-    if legacy_ok or uptodate:
+    if case["resolved"]:
+        seen2, extra2 = mu.project_disk(root, jobs, l0, real)
+        if res2 != case["res2"]:
+            report("violation", "migrate:collision-resolved:second-run-outcome-%s" % res2,
+                   "after the colliding 'workspace' was removed apply_migrations gives %s (%s), the specification requires %s; layout %r" % (res2, detail2, case["res2"], l0))
+        elif seen2 != case["post2"] or extra2:
+            bad2 = _diff(seen2, case["post2"])
+            st2 = [f for f in bad2 if f in PRESERVE_FIELDS]
+            report("violation" if st2 else "drift", "migrate:collision-resolved:layout-differs",
+                   "after resolving the collision and migrating again: %r, unexpected %r; specification %r; layout %r" % ({f: seen2[f] for f in bad2}, extra2, {f: case["post2"][f] for f in bad2}, l0))
+    elif legacy_ok or uptodate:
         if res2 != "ok":
             report("violation", "migrate:second-run:outcome-%s" % res2, "migrating the now up-to-date project again gives %s (%s); layout %r" % (res2, detail2, l0))
         if after2 != mid:
@@ -142,7 +170,7 @@ def _check_case(case, root, out, real=None, mutate_expected=None):
     if case["open"] == "ok":
         try:
             view, pdoc = mu.api_view(root)
-            want = mu.expected_view(jobs)
+            want = mu.expected_view(jobs) if case["openjobs"] == len(jobs) else {}
             if set(view) != set(want):
                 report("violation", "migrate:open-after:ids-differ:%s" % _ws_class(l0), "a fresh session lists ids %r, expected %r; layout %r" % (sorted(view), sorted(want), l0))
             else:
@@ -150,10 +178,13 @@ def _check_case(case, root, out, real=None, mutate_expected=None):
                     for f in ("sp", "doc", "files"):
                         if not _same(view[jid][f], want[jid][f]):
                             report("violation", "migrate:open-after:job-%s-differs" % f, "job %s: %s is %r, expected %r; layout %r" % (jid, f, view[jid][f], want[jid][f], l0))
-            if legacy_ok and l0["name"] != "None" and pdoc.get("signac_project_name") != real["name"]:
+            if (legacy_ok or case["resolved"]) and l0["name"] != "None" and pdoc.get("signac_project_name") != real["name"]:
                 report("violation", "migrate:open-after:project-name-not-in-document", "project document %r lacks the project name %r" % (pdoc, real["name"]))
             if l0["pdocUser"] and pdoc.get("user") != mu.USER_DOC["user"]:
                 report("violation", "migrate:open-after:project-document-lost", "project document is %r, expected the user content %r" % (pdoc, mu.USER_DOC))
+            seen3, extra3 = mu.project_disk(root, jobs, l0, real)
+            if seen3 != case["post3"] or extra3:
+                report("drift", "migrate:open-after:layout", "after opening: %r %r; specification %r" % (_diff(seen3, case["post3"]), extra3, case["post3"]))
         except Exception as e:  # noqa
             report("violation", "migrate:open-after:raises-%s:%s" % (type(e).__name__, shape), "opening the migrated project raises %r; layout %r" % (e, l0))
     else:
@@ -249,6 +280,8 @@ def _work_random(item):
         sub = mu.sub_dir(root, l0, jobs, real)
         res, detail = mu.run_op("migrate", root, sub)
         post, extra = mu.project_disk(root, jobs, l0, real)
+        if res == "RuntimeError" and l0["dirs"]["workspace"] == "stray":
+            shutil.rmtree(os.path.join(root, "workspace"), ignore_errors=True)   # resolve the collision, continue the history
         res2, _ = mu.run_op("migrate", root, sub)
         post2, extra2 = mu.project_disk(root, jobs, l0, real)
         op3, _ = mu.run_op("Project", root, sub)
@@ -331,10 +364,15 @@ def run(ctx):
                              "what": what + "apply_migrations gives %s (%s), specification %s; layout %r" % (o["res"], o["detail"], e["res"], l0), "case": c, "real": c["real"]})
         elif o["post"] != e["post"] or o["extra"]:
             bad = _diff(o["post"], e["post"])
-            stated = [f for f in bad if f in (PRESERVE_FIELDS if ok_expected else ("dirs", "njobs", "pdocUser"))]
-            findings.append({"kind": "violation" if stated else "drift", "sig": "migrate:%s=%s" % ((stated or bad or ["extra"])[0], _short(o["post"], (stated or bad or ["where"])[0])),
+            stated = [f for f in bad if e["resolved"] or f in (PRESERVE_FIELDS if ok_expected else ("dirs", "njobs", "pdocUser"))]
+            findings.append({"kind": "violation" if stated else "drift",
+                             "sig": "migrate:collision:left-half-migrated" if e["resolved"] and stated else "migrate:%s=%s" % ((stated or bad or ["extra"])[0], _short(o["post"], (stated or bad or ["where"])[0])),
                              "what": what + "after apply_migrations fields %r differ (got %r, extra %r); layout %r" % (bad, {f: o["post"][f] for f in bad}, o["extra"], l0), "case": c, "real": c["real"]})
-        if ok_expected and (o["res2"] != "ok" or o["post2"] != o["post"]):
+        if e["resolved"] and (o["res2"] != e["res2"] or o["post2"] != e["post2"]):
+            findings.append({"kind": "violation", "sig": "migrate:collision-resolved:%s" % ("second-run-outcome-" + o["res2"] if o["res2"] != e["res2"] else "layout-differs"),
+                             "what": what + "after resolving the collision the second migration gives %s, layout %r; specification %s %r" % (o["res2"], o["post2"], e["res2"], e["post2"]), "case": c, "real": c["real"]})
+        ok_expected = ok_expected or e["resolved"]
+        if not e["resolved"] and ok_expected and (o["res2"] != "ok" or o["post2"] != o["post"]):
             findings.append({"kind": "violation", "sig": "migrate:second-run:modified-or-failed", "what": what + "second migration: %s, layout then %r" % (o["res2"], o["post2"]), "case": c, "real": c["real"]})
         if ok_expected and (o["open"] != "ok" or o["view_ok"] is not True):
             findings.append({"kind": "violation", "sig": "migrate:open-after:%s" % ("raises-" + o["open"] if o["open"] != "ok" else o["view_ok"] or "jobs-differ"),
